@@ -44,6 +44,32 @@ type scenario struct {
 	// checkpoints: every block unless every > 1 (long scenarios), plus up to
 	// boundary heights where something falls due in the next block
 	every, boundary int64
+	// marked: round trips after the blocks run with blk / soft only (not after
+	// the blocks of idle), plus boundary heights and the last block
+	marked bool
+	// pending: a scenario that reaches a refused export / import of a class that
+	// is not (yet) a recorded finding; it is kept out of "list" and "all" (the
+	// registered scenario set) and runs only when named explicitly
+	pending string
+}
+
+// marks of the scenario being run (nil: every block is a checkpoint)
+var marks map[int64]bool
+
+func mark(c *chain.Chain) {
+	if marks != nil {
+		marks[c.Height] = true
+	}
+}
+
+// idle runs n empty blocks that are not checkpoints of a marked scenario.
+func idle(c *chain.Chain, n int) {
+	for i := 0; i < n; i++ {
+		r := c.RunBlock(tick, nil)
+		if r.Halt {
+			panic("scenario block halted: " + r.HaltMsg)
+		}
+	}
 }
 
 const tick = 5 * time.Second
@@ -59,6 +85,7 @@ func blk(c *chain.Chain, txs ...chain.Tx) chain.BlockResult {
 			panic(fmt.Sprintf("scenario tx %d at height %d failed (%s): %s", i, r.Height, t.Stage, t.Log))
 		}
 	}
+	mark(c)
 	return r
 }
 
@@ -307,6 +334,10 @@ func runScenario(w *chain.TraceWriter, s scenario, keep string) (err error) {
 	}
 	defer os.RemoveAll(dir)
 	os.Setenv("VERIF_RECORD_DIR", dir)
+	marks = nil
+	if s.marked {
+		marks = map[int64]bool{}
+	}
 	func() {
 		defer func() {
 			if r := recover(); r != nil {
@@ -317,12 +348,23 @@ func runScenario(w *chain.TraceWriter, s scenario, keep string) (err error) {
 		s.run(c)
 	}()
 	os.Unsetenv("VERIF_RECORD_DIR")
-	if err != nil {
-		return err
-	}
+	// a scenario that could not go on (on a changed tree a step may be refused or
+	// the chain may halt) still recorded what the real code did up to there: that
+	// part is round-tripped like any other history, and the error is reported
+	// afterwards (the check is then inconclusive unless a clause failed)
+	runErr := err
 	recs, _ := filepath.Glob(filepath.Join(dir, "*.rec"))
 	if len(recs) != 1 {
+		if runErr != nil {
+			return runErr
+		}
 		return fmt.Errorf("scenario %s: %d recordings", s.name, len(recs))
+	}
+	if runErr != nil {
+		if rec, e := chain.ReadRecording(recs[0]); e != nil || len(rec.Blocks) < 2 {
+			return runErr
+		}
+		marks = nil
 	}
 	path := filepath.Join(dir, "genesis_"+s.name+".rec")
 	if err := os.Rename(recs[0], path); err != nil {
@@ -341,14 +383,27 @@ func runScenario(w *chain.TraceWriter, s scenario, keep string) (err error) {
 	if every < 1 {
 		every = 1
 	}
-	return runRecording(w, path, every, -1, 0, s.boundary)
+	if err := runRecording(w, path, every, -1, 0, s.boundary, marks); err != nil {
+		return err
+	}
+	return runErr
 }
 
 func runScenarios(w *chain.TraceWriter, name, keep string) error {
 	var names []string
 	if name == "list" {
 		for _, s := range scenarios {
-			fmt.Println(s.name)
+			if s.pending == "" {
+				fmt.Println(s.name)
+			}
+		}
+		return nil
+	}
+	if name == "pending" {
+		for _, s := range scenarios {
+			if s.pending != "" {
+				fmt.Printf("%s\t%s\n", s.name, s.pending)
+			}
 		}
 		return nil
 	}
@@ -358,6 +413,9 @@ func runScenarios(w *chain.TraceWriter, name, keep string) error {
 	sort.Strings(names)
 	ran := 0
 	for _, s := range scenarios {
+		if name == "all" && s.pending != "" {
+			continue
+		}
 		if name != "all" && !strings.Contains(":"+name+":", ":"+s.name+":") {
 			continue
 		}
